@@ -165,7 +165,7 @@ def part_a_case(rig, code, ptr, spv, F, with_int=None, pc=0x8000):
     for p in (ptr, spv, (code[1] + 256 * code[2]) if len(code) > 2 else 0, (code[2] + 256 * code[3]) if len(code) > 3 else 0):
         for d in range(-3, 4):
             near.add((p + d) & 0xFFFF)
-    for d in (-128, 127, 5, 0x85 - 256, 0xFE - 256, -2, -1):
+    for d in (-128, 127, 5, 0x85 - 256, 0xFE - 256, -2, -1) + tuple(b - 256 if b > 127 else b for b in code[1:4]):
         near.add((ptr + d) & 0xFFFF)
     rig.touched.update(a for a in near if a >= 0x4000)
     rig.poke(pc, code[:0x10000 - pc] if pc > 0xFFF0 else code)      # the bytes beyond 0xFFFF are whatever the ROM holds
